@@ -4,17 +4,17 @@ import json
 props=[json.loads(l) for l in open('/verif/properties.jsonl')]
 # property -> (level text, note)
 claimed={
- "C09":("Every byte string within the bound is pushed through the real lexer symbolically and compared with an independent reference tokenizer, token by token; structural claims (order, containment, gaps), rescanning of each token's own text and the numeric accessors are asserted on every path.",
-        "Reference tokenizer (harness/h/reflex.go) is the oracle; floats and two documented don't-cares are outside."),
- "C12":("Any Go panic or step-budget exhaustion of Scan/SplitStatements/Parse/Walk/Compile on any explored path is a violation, confirmed by native replay (5 s watchdog for hangs).",
-        "Engine semantics of panics; token-slot sources use the lexer summary derived from the real Scan on this run. The wall-clock clause is outside."),
- "C15":("SplitStatements, Scan and Parse run symbolically on every byte string within the bound; the five equations of the property are asserted on every path.",
+ "C09":("Every byte string within the bound is pushed through the real lexer symbolically and compared with an independent reference tokenizer, token by token; structural claims (order, containment, gaps), rescanning of each token's own text and the numeric accessors (Uint64; Float64 per concrete spelling) are asserted on every path; framed families put 2-3 free bytes around long runs (boundary numerics, long literals).",
+        "Reference tokenizer (harness/h/reflex.go) is the oracle; float values needing more than one rounding step and two documented don't-cares are outside."),
+ "C12":("Any Go panic or step-budget exhaustion of Scan/SplitStatements/Parse/Walk/Compile on any explored path is a violation, confirmed by native replay (5 s watchdog for hangs); inputs: all short byte strings and token sequences, 28 deep/long/wide program families with free tokens inside, 17 framed byte-level families.",
+        "Engine semantics of panics; token-slot sources use the lexer summary derived from the real Scan on this run. The wall-clock clause is decided only for the listed families (instruction bound per path plus native watchdog)."),
+ "C15":("SplitStatements, Scan and Parse run symbolically on every byte string within the bound; the five equations of the property are asserted on every path (full byte range and focused alphabets incl. exponents next to semicolons and a lone CR).",
         "Same trusted base as C09."),
  "C08":("Every token sequence within the bound (and every bounded corruption of the seed programs) is parsed by the real parser with token kinds and values symbolic; whenever parsing succeeds, an independent re-printer of the tree must account for every source token in order (only the documented omissions allowed).",
         "Re-printer (harness/h/reprint.go) walks exported fields only. Token-slot sources use the lexer summary derived from the real Scan on this run."),
  "C10":("On every accepted token sequence within the bound each recorded span must equal the span of the lexeme(s) it describes and each node's Span() the extent of its first to last token, contained in its parent's; token spans are symbolic terms, equalities decided by z3.",
         "For failed parses every span of the partial tree and every line:column prefix of the error texts is checked to lie in the source. Token spans themselves are C09's subject."),
- "C11":("On every accepted token sequence within the bound the real Walk is run; the visit sequence must contain every identifier/expression node exactly once, no nil, parents first, and with an arbitrary (symbolic) call index returning false exactly that node's descendants disappear.",
+ "C11":("On every accepted token sequence within the bound the real Walk is run; the visit sequence must contain every identifier/expression node exactly once, no nil, parents first, and with an arbitrary (symbolic) call index returning false exactly that node's descendants disappear; a traversal abandoned by a panicking visitor leaves no trace in the next one; deep and wide program families.",
         "Node enumeration through exported fields (harness/h/reprint.go) is the oracle."),
  "C13":("Either/or contract asserted on all bounded byte strings and token sequences with 5 parameter maps; 'fails exactly when' asserted against rule predicates R1-R4 evaluated on the real parser's tree for every token sequence within the bound and for corrupted seed programs with calls, joins and lets at depth.",
         "Rule predicates (harness/h/c13.go) transcribe the documented rules; R5/R6 are parse failures."),
@@ -22,19 +22,19 @@ claimed={
         "Reference grammar (harness/h/refparse.go) is the oracle; constructs not in it (chained indexing, comma before by) carry no claim."),
  "C05":("Every compiling token sequence within the bound, the seed programs with arbitrary corruptions and name-collision shapes are compiled by the real compiler; the emitted text (with symbolic bytes where names are arbitrary) is lexed by two independent SQL lexers and parsed by an independent statement parser: one statement, one final semicolon, no comment or unterminated token, [WITH ...] SELECT shape, every FROM/JOIN source a PQL table or an earlier CTE, generated names unique, every CTE used.",
         "SQL lexers/parser in harness/h are the oracle."),
- "C04":("At 19 positions where literal or name content can occur, the content is a vector of free bytes run through the real lexer, parser and compiler; the emitted SQL (containing those symbolic bytes) must lex, under both standard and ClickHouse rules, to the same token kinds as the same skeleton with benign content, with every other token byte-identical, no comment or unterminated token, and the content-derived token must decode under ClickHouse rules to exactly the PQL value.",
+ "C04":("At 24 positions where literal or name content can occur, the content is a vector of free bytes (and, for long contents, two free bytes around a fixed run of up to 257 / 4097 bytes) run through the real lexer, parser and compiler; the emitted SQL (containing those symbolic bytes) must lex, under both standard and ClickHouse rules, to the same token kinds as the same skeleton with benign content, with every other token byte-identical, no comment or unterminated token, and the content-derived token must decode under ClickHouse rules to exactly the value the reference token language gives the PQL literal (numbers: the same numeric value).",
         "Nothing stubbed. SQL lexers in harness/h/sqllex.go are the oracle."),
- "C01":("46 expression shapes with arbitrary binary operators in 12 expression positions are compiled by the real compiler; the emitted SQL expression is re-parsed with ClickHouse's operator priorities by an independent parser and mapped to a term of a value algebra (operators uninterpreted, coalesce/IS NULL/CASE interpreted); z3 decides, for all rows and all interpretations, equality with the term of the PQL expression as grouped by the real parser, and that ==/!= never yield NULL. Non-termination and comment-producing output are violations.",
+ "C01":("61 expression shapes (+5 join-condition shapes) with arbitrary binary operators, in up to 12 expression positions, are compiled by the real compiler; the emitted SQL expression is re-parsed with ClickHouse's operator priorities by an independent parser and mapped to a term of a value algebra (operators uninterpreted, coalesce/IS NULL/CASE interpreted); z3 decides, for all rows and all interpretations, equality with the term of the PQL expression as grouped by the real parser, and that ==/!= never yield NULL. Non-termination and comment-producing output are violations.",
         "ClickHouse priority table and the PQL meaning table (harness/h/valmap.go) are trusted transcriptions; the real parser's grouping is C07's subject."),
  "C06":("Programs built from let prefixes x use sites x suffixes x parameter maps (and shapes with arbitrary operators around and inside the binding) are compiled by the real compiler; a reference with lexical scoping evaluates the real parser's tree to a value-algebra term and z3 decides equality with the term of the emitted SQL for all rows; non-substituted contexts (quoted, qualified, function, table, alias) are checked structurally; removing unused bindings / lets after the query must leave the SQL byte-identical.",
         "Programs are enumerated by selectors (reported as such); the solver's quantifier is over rows and operator interpretations."),
- "C16":("The real run() of cmd/pql (harness injected into package main by overlay, bufio.Scanner interpreted from source) is executed on scripts assembled from statement templates, separators and line layouts with selector-chosen read chunking and a read failure at an arbitrary offset; a model that calls the real pql.Compile per statement with the prelude of accepted lets gives the expected standard output, error count and exit status; the real multiReadCloser and an over-long line are exercised too.",
+ "C16":("The real run() of cmd/pql (harness injected into package main by overlay, bufio.Scanner interpreted from source) is executed on scripts assembled from statement templates (incl. comment openers and semicolons inside literals, trailing comments), separators and line layouts with selector-chosen read chunking and a read failure at an arbitrary offset; a model that calls the real pql.Compile per statement with the prelude of accepted lets gives the expected standard output, error count and exit status; the real multiReadCloser and an over-long line are exercised too.",
         "Scripts and environment choices are enumerated through selectors (reported as such); main/cobra/os plumbing is outside (not encodable). Two documented don't-cares."),
- "C14":("History: Compile/Parse/Scan are called repeatedly and interleaved on pairs of programs in one execution and results compared; the caller's parameter map is compared before/after; nil/zero/empty options compared; map iteration order is a symbolic permutation. Schedule: two Compile (and Parse/Scan) calls sharing their options run as interpreter threads, cold (first use in the process) and warm; the scheduler's choice before every visible operation (sync.Once/Mutex operations and accesses to shared locations that any explored execution writes) is an explicit decision, so all interleavings at that granularity are explored; conflicting accesses unordered by happens-before are data races; results must equal the sequential ones.",
+ "C14":("History: Compile/Parse/Scan are called repeatedly and interleaved on pairs of programs in one execution and results compared; the result of each program in the initial process state is compared with its result after any other program (every path starts from the initial state; confirmed in fresh native processes); the caller's parameter map is compared before/after; nil/zero/empty options compared; map iteration order is a symbolic permutation. Schedule: two Compile (and Parse/Scan) calls sharing their options run as interpreter threads, cold (first use in the process) and warm; the scheduler's choice before every visible operation (sync.Once/Mutex operations and accesses to shared locations that any explored execution writes) is an explicit decision, so all interleavings at that granularity are explored; conflicting accesses unordered by happens-before are data races; results must equal the sequential ones.",
         "Data races are confirmed natively by the Go race detector on a -race build of the same harness. More than two goroutines and the Go runtime itself are outside."),
  "C02":("Every well-typed pipeline within the bound is compiled by the real compiler (programs drawn by selectors, real lexer); the emitted SQL is parsed and evaluated by a reference SQL evaluator and the pipeline by a reference left-to-right interpreter on the same table whose cells are symbolic (NULL flag and small integer); every (program, data path) ends in solver-decided cell equalities, so duplicates, ties, NULLs and the empty table are all covered: same columns, stated names, rows and order.",
         "Reference evaluators (harness/h/pipeeval.go, sqleval.go) with ordered-list semantics are the oracle; ClickHouse itself is not executed."),
- "C03":("Join programs (all kinds, six condition forms, left prefixes, right-hand pipelines, following operators, two joins in sequence and nested) are compiled by the real compiler and the emitted SQL is evaluated by the reference SQL evaluator against a reference join on symbolic tables; reading from the wrong subquery, a wrong join type, a lost DISTINCT or a mis-rewritten condition yields different rows for some table and is found as a counterexample.",
+ "C03":("Join programs (all kinds, nine condition forms, eight left prefixes, right-hand pipelines, following operators, two and three joins in sequence and nested) are compiled by the real compiler and the emitted SQL is evaluated by the reference SQL evaluator against a reference join on symbolic tables; reading from the wrong subquery, a wrong join type, a lost DISTINCT or a mis-rewritten condition yields different rows for some table and is found as a counterexample.",
         "Same oracles as C02 plus refJoin."),
 }
 checks=[]
